@@ -138,6 +138,10 @@ func (i *Number) Add(obj Object) Object {
 		return newError("Incorrect operand type for operator or function; operator: ADD, operand type: %s", obj.Type())
 	}
 
+	if errObj := checkNumberRange(i.Value+n.Value, i.Value, n.Value); errObj != nil {
+		return errObj
+	}
+
 	i.Value += n.Value
 	i.text = ""
 
